@@ -681,6 +681,12 @@ pub fn replay_bounded(unit: &str) -> Option<i32> {
         "b_generate_constructed" => run_grid(unit, contract_generate_constructed, limit),
         "b_c04_component_bounds" => run_grid(unit, contract_generate_component_bounds, limit),
         "b_generate_enumerated" => run_grid(unit, contract_generate_enumerated, limit),
+        "b_c04_assignment_bounds" => run_grid(unit, contract_generate_assignment_bounds, limit),
+        "b_c07_pipeline_values" => run_grid(unit, contract_pipeline_value_assignments, limit),
+        "b_c03_tag_parser" => run_grid(unit, contract_tag_parser, limit),
+        "b_choice_and_set_parser" => run_grid(unit, contract_choice_and_set_parser, limit),
+        "b_c04_fixed_size" => run_grid(unit, contract_fixed_size, limit),
+        "b_c07_value_rendering" => run_grid(unit, contract_value_rendering, limit),
         "b_c05_nested_enumerated" => run_grid(unit, contract_generate_nested_enumerated, limit),
         "b_c02_components_of_import" => run_grid(unit, contract_components_of_import, limit),
         "b_c02_nested_collections" => run_grid(unit, contract_generate_nested_collections, limit),
@@ -2337,6 +2343,218 @@ pub fn contract_generate_nested_enumerated<C: Ctx>(cx: &mut C) {
         let start = generated[..pos].rfind("# [derive").unwrap_or(0);
         let attrs = &generated[start..pos];
         vob!(cx, "C05.generate.enumerated_at_any_position_extensible_iff_marker_or_implied", attrs.contains("non_exhaustive") == (marker || implied));
+    }
+    #[cfg(kani)]
+    { let _ = cx; }
+}
+
+// ================================================================================================
+// Mechanisms named in the properties' anchors that no earlier unit touched (added proactively, not from a seed)
+// ================================================================================================
+
+/// C03 — the tag parser (lexer/common.rs `asn_tag`): class keyword, number, optional IMPLICIT / EXPLICIT (absent = inherit).
+pub fn contract_tag_parser<C: Ctx>(cx: &mut C) {
+    #[cfg(not(kani))]
+    {
+        let class = cx.choose(4);
+        let kw = cx.choose(3);
+        let id = [0u64, 1, 30, 31, 127, 16383, 4294967295, u64::MAX][cx.choose(8)];
+        let spaced = cx.any_bool();
+        let (cname, want_class) = [("", TagClass::ContextSpecific), ("APPLICATION", TagClass::Application), ("PRIVATE", TagClass::Private), ("UNIVERSAL", TagClass::Universal)][class];
+        let src = format!("[{}{}{}{}]{}{} BOOLEAN", if spaced { " " } else { "" }, cname, if cname.is_empty() { "" } else { " " }, id, if spaced { "  " } else { " " }, ["", "IMPLICIT", "EXPLICIT"][kw]);
+        cx.describe(|| src.clone());
+        match crate::lexer::verif_asn_tag(src.as_str().into()) {
+            Ok((_, t)) => {
+                vob!(cx, "C03.tag_parser.class_as_written", t.tag_class == want_class);
+                vob!(cx, "C03.tag_parser.number_as_written", t.id == id);
+                vob!(cx, "C03.tag_parser.keyword_as_written_absent_means_inherit", t.environment == [TaggingEnvironment::Automatic, TaggingEnvironment::Implicit, TaggingEnvironment::Explicit][kw]);
+            }
+            Err(_) => { vob!(cx, "C03.tag_parser.parses", false); }
+        }
+    }
+    #[cfg(kani)]
+    { let _ = cx; }
+}
+
+/// C02 / C05 — the CHOICE and SET body parsers (lexer/choice.rs `choice`, lexer/set.rs `set`): alternatives /
+/// components in source order with their tags and OPTIONAL marks, marker index = number of root items.
+pub fn contract_choice_and_set_parser<C: Ctx>(cx: &mut C) {
+    #[cfg(not(kani))]
+    {
+        use crate::intermediate::types::*;
+        let is_set = cx.any_bool();
+        let n_root = if is_set { cx.choose(3) } else { 1 + cx.choose(2) };
+        let marker = cx.any_bool();
+        let n_add = if marker { cx.choose(3) } else { 0 };
+        let mut src = String::from(if is_set { "SET { " } else { "CHOICE { " });
+        let mut want: Vec<(String, Option<u64>, bool)> = vec![];
+        let mut first = true;
+        for i in 0..(n_root + n_add) {
+            if i == n_root && marker { if !first { src.push_str(", "); } src.push_str("..."); first = false; }
+            if !first { src.push_str(", "); }
+            first = false;
+            let tagged = cx.any_bool();
+            let optional = is_set && cx.any_bool();
+            let name = format!("{}{}", if i < n_root { "r" } else { "x" }, i);
+            src.push_str(&format!("{name} {}BOOLEAN{}", if tagged { format!("[{}] ", 10 + i) } else { String::new() }, if optional { " OPTIONAL" } else { "" }));
+            want.push((name, if tagged { Some(10 + i as u64) } else { None }, optional));
+        }
+        if marker && n_add == 0 { if !first { src.push_str(", "); } src.push_str("..."); }
+        src.push_str(" }");
+        cx.describe(|| src.clone());
+        let parsed = if is_set { crate::lexer::verif_set(src.as_str().into()) } else { crate::lexer::verif_choice(src.as_str().into()) };
+        let got: Option<(Vec<(String, Option<u64>, bool)>, Option<usize>)> = match parsed {
+            Ok((_, ASN1Type::Set(s))) => Some((s.members.iter().map(|m| (m.name.clone(), m.tag.as_ref().map(|t| t.id), matches!(m.optionality, Optionality::Optional))).collect(), s.extensible)),
+            Ok((_, ASN1Type::Choice(c))) => Some((c.options.iter().map(|o| (o.name.clone(), o.tag.as_ref().map(|t| t.id), false)).collect(), c.extensible)),
+            _ => None,
+        };
+        match got {
+            Some((items, ext)) => {
+                vob!(cx, "C02.choice_set_parser.items_in_source_order_with_tag_and_optional", items == want);
+                vob!(cx, "C05.choice_set_parser.marker_iff_extensible_and_index_is_root_count", ext == if marker { Some(n_root) } else { None });
+            }
+            None => { vob!(cx, "C02.choice_set_parser.parses", false); }
+        }
+    }
+    #[cfg(kani)]
+    { let _ = cx; }
+}
+
+/// C04 — fixed SIZE(n) on BIT STRING / OCTET STRING: `BitString::fixed_size` / `OctetString::fixed_size`
+/// (generator/rasn/utils.rs): fixed exactly when the size constraint is a single, non-extensible value.
+pub fn contract_fixed_size<C: Ctx>(cx: &mut C) {
+    #[cfg(not(kani))]
+    {
+        use crate::intermediate::constraints::*;
+        use crate::intermediate::types::*;
+        let bits = cx.any_bool();
+        let lo = [0i128, 1, 8, 64][cx.choose(4)];
+        let hi_k = cx.choose(3); // 0 = same (single value written as range), 1 = larger, 2 = MAX
+        let single = cx.any_bool();
+        let ext = cx.any_bool();
+        let elem = if single { SubtypeElements::SingleValue { value: ASN1Value::Integer(lo), extensible: ext } }
+                   else { SubtypeElements::ValueRange { min: Some(ASN1Value::Integer(lo)), max: match hi_k { 0 => Some(ASN1Value::Integer(lo)), 1 => Some(ASN1Value::Integer(lo + 3)), _ => None }, extensible: ext } };
+        let c = Constraint::Subtype(ElementSetSpecs { set: ElementOrSetOperation::Element(SubtypeElements::SizeConstraint(Box::new(ElementOrSetOperation::Element(elem)))), extensible: false });
+        cx.describe(|| format!("{} (SIZE({}{}))", if bits { "BIT STRING" } else { "OCTET STRING" }, if single { lo.to_string() } else { format!("{lo}..{}", match hi_k { 0 => lo.to_string(), 1 => (lo + 3).to_string(), _ => "MAX".into() }) }, if ext { ", ..." } else { "" }));
+        let got = if bits { BitString { constraints: vec![c], distinguished_values: None }.fixed_size() } else { OctetString { constraints: vec![c] }.fixed_size() };
+        let want = if !ext && (single || hi_k == 0) { Some(lo as usize) } else { None };
+        vob!(cx, "C04.fixed_size.fixed_iff_single_non_extensible_size", got == want);
+    }
+    #[cfg(kani)]
+    { let _ = cx; }
+}
+
+/// C07 — rendering of values to Rust expressions (`Rasn::value_to_tokens`, generator/rasn/utils.rs): each value kind
+/// denotes the same abstract value in the emitted expression.
+pub fn contract_value_rendering<C: Ctx>(cx: &mut C) {
+    #[cfg(not(kani))]
+    {
+        let backend = crate::generator::rasn::Rasn::default();
+        let case = cx.choose(12);
+        let (value, want): (ASN1Value, String) = match case {
+            0 => (ASN1Value::Null, "()".into()),
+            1 => (ASN1Value::Boolean(true), "true".into()),
+            2 => (ASN1Value::Boolean(false), "false".into()),
+            3 => (ASN1Value::BitString(vec![true, false, true, true]), "[true , false , true , true] . into_iter () . collect ()".into()),
+            4 => (ASN1Value::BitString(vec![]), "[] . into_iter () . collect ()".into()),
+            5 => (ASN1Value::OctetString(vec![0, 165, 255]), "< OctetString as From < & 'static [u8] >> :: from (& [0 , 165 , 255])".into()),
+            6 => (ASN1Value::LinkedCharStringValue(CharacterStringType::UTF8String, "a\"b".into()), "String :: from (\"a\\\"b\")".into()),
+            7 => (ASN1Value::LinkedCharStringValue(CharacterStringType::IA5String, "hi".into()), "Ia5String :: try_from (\"hi\") . unwrap ()".into()),
+            8 => (ASN1Value::EnumeratedValue { enumerated: "Colour".into(), enumerable: "green".into() }, "Colour :: green".into()),
+            9 => (ASN1Value::LinkedArrayLikeValue(vec![Box::new(ASN1Value::Boolean(true)), Box::new(ASN1Value::Boolean(false)), Box::new(ASN1Value::Boolean(true))]), "alloc :: vec ! [true , false , true]".into()),
+            10 => (ASN1Value::LinkedNestedValue { supertypes: vec!["Outer".into(), "Inner".into()], value: Box::new(ASN1Value::LinkedIntValue { integer_type: IntegerType::Uint8, value: 7 }) }, "Outer (Inner (7))".into()),
+            _ => (ASN1Value::LinkedElsewhereDefinedValue { parent: None, identifier: "max-value".into(), can_be_const: true }, "MAX_VALUE".into()),
+        };
+        cx.describe(|| format!("value={value:?}"));
+        match backend.value_to_tokens(&value, None) {
+            Ok(ts) => { vob!(cx, "C07.value_rendering.expression_denotes_the_value", ts.to_string() == want); }
+            Err(_) => { vob!(cx, "C07.value_rendering.renders", false); }
+        }
+    }
+    #[cfg(kani)]
+    { let _ = cx; }
+}
+
+/// C07 — value assignments through the whole pipeline (`Compiler::compile_to_string`: lexer value parsers ->
+/// link_with_type -> generate_value / value_to_tokens): the emitted constant denotes the source value.
+pub fn contract_pipeline_value_assignments<C: Ctx>(cx: &mut C) {
+    #[cfg(not(kani))]
+    {
+        let kind = cx.choose(10);
+        let (decl, want): (String, String) = match kind {
+            0 => { let b = cx.any_bool(); (format!("v BOOLEAN ::= {}", if b { "TRUE" } else { "FALSE" }), format!("pub const V : bool = {b} ;")) }
+            1 => ("v NULL ::= NULL".into(), "pub const V : () = () ;".into()),
+            2 => { let n = [0i128, 1, -1, -42, 255, 256, -129, 4294967296, 170141183460469231731687303715884105727, -170141183460469231731687303715884105728][cx.choose(10)];
+                   (format!("v INTEGER ::= {n}"), format!("Integer :: from ({}i128)", if n < 0 { format!("- {}", n.unsigned_abs()) } else { n.to_string() })) }
+            3 => { let n = [0i128, 1, 200, 255][cx.choose(4)]; (format!("v INTEGER (0..255) ::= {n}"), format!("pub const V : u8 = {n} ;")) }
+            4 => { let n = [-128i128, -1, 0, 127][cx.choose(4)]; (format!("v INTEGER (-128..127) ::= {n}"), format!("pub const V : i8 = {} ;", if n < 0 { format!("- {}", -n) } else { n.to_string() })) }
+            5 => { let bytes: Vec<u8> = (0..cx.choose(3)).map(|_| [0u8, 0x0B, 0x4C, 0xA5, 0xC4, 0xFF][cx.choose(6)]).collect();
+                   (format!("v OCTET STRING ::= '{}'H", bytes.iter().map(|b| format!("{b:02X}")).collect::<String>()), format!("from (& [{}])", bytes.iter().map(|b| b.to_string()).collect::<Vec<_>>().join(" , "))) }
+            6 => { let bits: Vec<bool> = (0..cx.choose(5)).map(|_| cx.any_bool()).collect();
+                   (format!("v BIT STRING ::= '{}'B", bits.iter().map(|b| if *b { '1' } else { '0' }).collect::<String>()), format!("[{}] . into_iter () . collect ()", bits.iter().map(|b| b.to_string()).collect::<Vec<_>>().join(" , "))) }
+            7 => { let d = ["4", "C", "A5", "4C0", "F0F"][cx.choose(5)];
+                   let bits: Vec<String> = d.chars().flat_map(|c| { let v = c.to_digit(16).unwrap(); (0..4).rev().map(move |k| ((v >> k) & 1 == 1).to_string()) }).collect();
+                   (format!("v BIT STRING ::= '{d}'H"), format!("[{}] . into_iter () . collect ()", bits.join(" , "))) }
+            8 => { let (s, lit) = [("plain", "\"plain\""), ("a\"\"b", "\"a\\\"b\""), ("", "\"\""), ("x\"\"\"\"y", "\"x\\\"\\\"y\"")][cx.choose(4)];
+                   (format!("v UTF8String ::= \"{s}\""), format!("String :: from ({lit})")) }
+            _ => { let (src, arcs) = [("{ iso member-body 840 }", "1u32 , 2u32 , 840u32"), ("{ itu-t identified-organization 0 5 }", "0u32 , 4u32 , 0u32 , 5u32"), ("{ 1 3 6 1 }", "1u32 , 3u32 , 6u32 , 1u32"), ("{ joint-iso-itu-t 5 }", "2u32 , 5u32")][cx.choose(4)];
+                   (format!("v OBJECT IDENTIFIER ::= {src}"), format!("Oid :: const_new (& [{arcs}])")) }
+        };
+        let src = format!("M DEFINITIONS AUTOMATIC TAGS ::= BEGIN {decl} END");
+        cx.describe(|| decl.clone());
+        match crate::Compiler::<crate::generator::rasn::Rasn, _>::new().add_asn_literal(&src).compile_to_string() {
+            Ok(res) => { vob!(cx, "C07.pipeline.value_assignment_denotes_the_source_value", res.warnings.is_empty() && res.generated.contains(&want)); }
+            Err(_) => { vob!(cx, "C07.pipeline.value_assignment_compiles", false); }
+        }
+    }
+    #[cfg(kani)]
+    { let _ = cx; }
+}
+
+/// C04 — value / size annotation on TYPE ASSIGNMENTS (generator/rasn/builder.rs generate_integer, generate_octet_string,
+/// generate_bit_string, generate_character_string, generate_sequence_or_set_of -> format_range_annotations):
+/// the annotation is the range of the constraint, flagged extensible exactly with the marker; a fixed SIZE(n) on
+/// BIT STRING / OCTET STRING becomes FixedBitString<n> / FixedOctetString<n>.
+pub fn contract_generate_assignment_bounds<C: Ctx>(cx: &mut C) {
+    #[cfg(not(kani))]
+    {
+        use crate::intermediate::constraints::*;
+        use crate::intermediate::types::*;
+        use crate::generator::Backend;
+        use std::{cell::RefCell, rc::Rc};
+        let kind = cx.choose(5); // 0 INTEGER value range, 1 OCTET STRING size, 2 BIT STRING size, 3 IA5String size, 4 SEQUENCE OF size
+        let lo = [Some(0i128), Some(2), None][cx.choose(3)];
+        let hi = [Some(2i128), Some(9), None][cx.choose(3)];
+        if !cx.assume(match (lo, hi) { (Some(l), Some(h)) => l <= h, (None, None) => false, _ => true }) { return; }
+        if !cx.assume(kind == 0 || lo.is_some()) { return; }
+        let ext = cx.any_bool();
+        let range = SubtypeElements::ValueRange { min: lo.map(ASN1Value::Integer), max: hi.map(ASN1Value::Integer), extensible: ext };
+        let c = Constraint::Subtype(ElementSetSpecs { set: ElementOrSetOperation::Element(if kind == 0 { range } else { SubtypeElements::SizeConstraint(Box::new(ElementOrSetOperation::Element(range))) }), extensible: false });
+        let ty = match kind {
+            0 => ASN1Type::Integer(Integer { constraints: vec![c], distinguished_values: None }),
+            1 => ASN1Type::OctetString(OctetString { constraints: vec![c] }),
+            2 => ASN1Type::BitString(BitString { constraints: vec![c], distinguished_values: None }),
+            3 => ASN1Type::CharacterString(CharacterString { constraints: vec![c], ty: CharacterStringType::IA5String }),
+            _ => ASN1Type::SequenceOf(SequenceOrSetOf { constraints: vec![c], element_type: Box::new(ASN1Type::Boolean(Boolean { constraints: vec![] })), element_tag: None, is_recursive: false }),
+        };
+        cx.describe(|| format!("A ::= {} ({}{}..{}{}{})", ["INTEGER", "OCTET STRING", "BIT STRING", "IA5String", "SEQUENCE OF BOOLEAN (size)"][kind], if kind == 0 { "" } else { "SIZE(" }, lo.map_or("MIN".into(), |v| v.to_string()), hi.map_or("MAX".into(), |v| v.to_string()), if ext { ", ..." } else { "" }, if kind == 0 { "" } else { ")" }));
+        let h = Rc::new(RefCell::new(ModuleHeader { name: "M".into(), module_identifier: None, encoding_reference_default: None, tagging_environment: TaggingEnvironment::Automatic, extensibility_environment: ExtensibilityEnvironment::Explicit, imports: vec![], exports: None }));
+        let tld = ToplevelDefinition::Type(ToplevelTypeDefinition { comments: String::new(), tag: None, name: "A".into(), ty, parameterization: None, module_header: Some(h) });
+        let mut backend = crate::generator::rasn::Rasn::default();
+        let generated = match backend.generate_module(vec![tld]) { Ok(m) if m.warnings.is_empty() => m.generated.unwrap_or_default(), _ => { vob!(cx, "C04.generate.constrained_assignment_is_generated", false); return; } };
+        let text = match (lo, hi) { (Some(l), Some(h)) if l == h => format!("{l}"), (Some(l), Some(h)) => format!("{l}..={h}"), (Some(l), None) => format!("{l}.."), (None, Some(h)) => format!("..={h}"), _ => String::new() };
+        let kw = if kind == 0 { "value" } else { "size" };
+        let want = if ext { format!("{kw} (\"{text}\" , extensible)") } else { format!("{kw} (\"{text}\")") };
+        let fixed = (kind == 1 || kind == 2) && !ext && lo.is_some() && lo == hi;
+        if fixed {
+            let n = lo.unwrap();
+            vob!(cx, "C04.generate.fixed_size_strings_become_fixed_types", generated.contains(&format!("{} < {n}", if kind == 1 { "FixedOctetString" } else { "FixedBitString" })));
+        } else if kind != 0 && lo == Some(0) && hi.is_none() && !ext {
+            // SIZE(0..MAX) is the default and may be left out
+            vob!(cx, "C04.generate.assignment_annotation_is_the_constraint_range", generated.contains(&want) || !generated.contains("size ("));
+        } else {
+            vob!(cx, "C04.generate.assignment_annotation_is_the_constraint_range", generated.contains(&want));
+        }
     }
     #[cfg(kani)]
     { let _ = cx; }
